@@ -457,3 +457,11 @@ harness!(c11_q_bit_conversions, 2, {
     let c = nd::bit();
     assert!(Bit::from(bool::from(c)) == c, "C11: Bit -> bool -> Bit does not round-trip");
 });
+
+// ---- slices of elements *narrower* than the storage word that overshoot the capacity by less
+// than one word (3 half-word elements into a one-word vector): must be NotEnoughCapacity
+h_slice_to_bvf!(c11_q_slice_u8_to_f16x1, 6, Bvf<u16, 1>, u8);
+h_slice_to_bvf!(c11_q_slice_u16_to_f32x1, 6, Bvf<u32, 1>, u16);
+h_slice_to_bvf!(c11_q_slice_u32_to_f64x1, 6, Bvf<u64, 1>, u32);
+h_slice_to_bvf!(c11_t_slice_u64_to_f128x1, 6, Bvf<u128, 1>, u64);
+h_slice_to_bvf!(c11_t_slice_u8_to_f32x1, 6, Bvf<u32, 1>, u8);
